@@ -108,6 +108,8 @@ def check_line(entry, res, tier, which):
                     return ('CEX', 'value:%s' % name, 'candidate %d: decoded %s is not one of the numbers of the line (truncated or sign-changed)' % (ci, lab),
                             eng.model_inputs(m if m is not None else eng.witness()), ci)
             for j, u in enumerate(used):
+                if not u and eng.prove(nterms[j] == 0):
+                    continue          # a zero displacement may be omitted from the encoding
                 if not u and not _implicit_ok(name, tmpl):
                     return ('CEX', 'dropped:%s' % name, 'candidate %d: number {%d} of the line does not appear in the encoding' % (ci, j), eng.model_inputs(eng.witness()), ci)
             out.append(sb)
@@ -149,15 +151,15 @@ def check_line(entry, res, tier, which):
     if uniq:
         dis = OD.disassemble([bytes(w[2]) for w in uniq])
         from vf.oracles import gas
-        valid = gas.valid_lines([tmpl.format(*w[0]) for w in uniq]) if which == 'C02' else set(range(len(uniq)))
+        refs = gas.reference([tmpl.format(*w[0]) for w in uniq]) if which == 'C02' else [True] * len(uniq)
         for slot, ((vals, ci, bs), od) in enumerate(zip(uniq, dis)):
             res['witnesses'] = res.get('witnesses', 0) + 1
             line = tmpl.format(*vals)
-            if slot not in valid:
+            if refs[slot] is None:
                 res['wit_invalid_for_gas'] = res.get('wit_invalid_for_gas', 0) + 1
                 continue
             if which == 'C02':
-                bad = template_check(line, bytes(bs), od, addr=slot * OD.SLOT)
+                bad = template_check(refs[slot], bytes(bs), od, addr=slot * OD.SLOT, refaddr=slot * gas.SLOT, line_mn=name)
                 if bad:
                     key = '%s:%s:%s' % (bad[0], name, ','.join(tags))
                     if key not in seen:
@@ -213,26 +215,36 @@ def _models(eng):
     return out
 
 
-def template_check(line, b, od, addr=0):
-    """objdump must read b as one instruction of len(b) bytes that is the instruction the line denotes"""
+def template_check(ref, b, od, addr=0, refaddr=0, line_mn=None):
+    """objdump must read candidate b as one instruction of len(b) bytes: the instruction GNU as assembles the line to
+    (read back by the same objdump), possibly in another encoding form"""
     if od is None:
         return ('objdump-rejects', 'objdump does not decode the candidate')
     olen, otxt = od
+    o16 = (b[:1] == b'\x66' or b[1:2] == b'\x66')
     try:
-        co = OD.canon(otxt, 'objdump', addr=addr, length=olen, opsize16=(b[:1] == b'\x66' or b[1:2] == b'\x66'))
+        co = OD.canon(otxt, 'objdump', addr=addr, length=olen, opsize16=o16)
     except OD.Unparsed as ex:
         if str(ex) == 'bad':
             return ('objdump-rejects', 'objdump prints %r' % otxt)
         return None
     if olen != len(b):
         return ('template-length', 'objdump reads %d of %d bytes (%s)' % (olen, len(b), otxt))
+    rlen, rtxt = ref
     try:
-        cl = OD.canon(line, 'line', length=len(b))
+        cl = OD.canon(rtxt, 'objdump', addr=refaddr, length=rlen, opsize16=o16)
     except OD.Unparsed:
+        return None
+    # outside the quantifier: GNU as re-interpreted the mnemonic of the line (e.g. 'movd eax, eax' -> mov), and
+    # direct relative branches (miasmX's operand is the raw displacement, GNU's an absolute target: a convention)
+    lm = OD.MN_ALIAS.get(line_mn, line_mn) if line_mn else None
+    if lm is not None and lm != cl[1] and lm != cl[1].rstrip('wdlbq'):
+        return None
+    if cl[2] and cl[2][0][0] == 'imm' and (cl[1].startswith('j') or cl[1] in ('call', 'loop', 'loope', 'loopne', 'jecxz')):
         return None
     why = OD.same(cl, co)
     if why:
-        return ('template-' + why.split()[0].rstrip(':'), '%s | objdump: %s' % (why, otxt))
+        return ('template-' + why.split()[0].rstrip(':'), '%s | GNU as: %s | candidate: %s' % (why, rtxt, otxt))
     return None
 
 
@@ -325,8 +337,9 @@ for ci, b in enumerate(cands):
                 if not present and ci == D['ci']: bad = True; print('number %%#x of the line is not in candidate %%s' %% (n, b.hex()))
     elif what == 'template':
         from vf.oracles import gas
-        if not gas.valid_lines([line]): print('GNU as rejects the line: outside the quantifier'); continue
-        r = c02.template_check(line, b, OD.disassemble([b])[0])
+        ref = gas.reference([line])[0]
+        if ref is None: print('GNU as rejects the line (or warns): outside the quantifier'); continue
+        r = c02.template_check(ref, b, OD.disassemble([b])[0], line_mn=line.split()[0])
         if r and ci == D['ci']: bad = True; print(b.hex(), r)
     elif what == 'text':
         r = c02.text_roundtrip(b)
